@@ -1,203 +1,383 @@
-"""C17 - the command line writes exactly the assembled program, or nothing on failure."""
+"""C17 - the command line writes exactly the assembled program, or nothing on failure.
+
+All rules are stated over the typed events of the fully inlined paths of asm.cli_main (bbverif.clirules): they do not depend on
+how cli_main is split into helpers nor on the names of its variables.  A Finding is reported only for an event sequence the
+analysis has positively understood; anything else is collected as `undecided` and ends the run with ANALYSIS-ERROR (unless a
+violation has been established on the way)."""
 import ast
 
 from ..core import Report, Finding, AnalysisError
 from ..facts import Facts
-from ..astutil import unparse, dotted
-from ..pathwalk import Walker, PathState, show, is_const, C
-from ..immsites import contains, find_all
-from ..dfurules import strip
+from ..pathwalk import show, is_const, C
+from ..clirules import CliModel, strip, pieces, contains, given, same_bytes, catches
 
 LEVEL = 'other'
 
 
-def classify(path):
-    """Ordered CLI events: ('ASM', i, node, sym) ('W', i, node, (path sym, mode)) ('ENDW', ...) ('FAIL', ...) ('WRITE', ...) ('HEX', ...)"""
-    out = []
-    open_stack = []
-    for i, ev in enumerate(path.events):
-        k = ev[0]
-        v = strip(ev[1]) if k in ('value', 'expr', 'with') and isinstance(ev[1], tuple) else None
-        if k in ('value', 'expr') and v is not None and v[0] == 'call' and v[1] == 'assemble':
-            out.append(('ASM', i, ev[2], ev[1]))
-        elif k == 'with' and v is not None and v[0] == 'call' and v[1] == 'open':
-            mode = v[2][1] if len(v[2]) > 1 else dict(v[3]).get('mode', C('r'))
-            if is_const(mode) and any(c in mode[1] for c in 'wax+'):
-                out.append(('W', i, ev[2], (v[2][0], mode[1])))
-                open_stack.append(True)
-            else:
-                open_stack.append(False)
-        elif k == 'endwith':
-            if open_stack and open_stack.pop():
-                out.append(('ENDW', i, ev[2], None))
-        elif k in ('value', 'expr') and v is not None and v[0] == 'call' and v[1] == 'open':
-            mode = v[2][1] if len(v[2]) > 1 else dict(v[3]).get('mode', C('r'))
-            if is_const(mode) and any(c in mode[1] for c in 'wax+'):
-                out.append(('W', i, ev[2], (v[2][0], mode[1])))
-        elif k in ('value', 'expr') and v is not None and v[0] == 'call' and v[1].split('.')[-1] == 'bin2hex':
-            out.append(('HEX', i, ev[2], v[2]))
-        elif k == 'mcall' and ev[2] in ('write', 'writelines'):
-            out.append(('WRITE', i, ev[5], (ev[1], ev[2], ev[3])))
-        elif k == 'raise':
-            out.append(('FAIL', i, ev[2], ev[1]))
-    return out
-
-
 def exit_arg_ok(exc):
-    """raise SystemExit(x) with x neither None nor 0 / empty."""
+    """raise SystemExit(x) with x neither None nor 0 / empty; any other exception ends the run with a traceback (non-zero)."""
+    if is_const(exc) and exc[1] is None:
+        return True                                          # bare `raise` inside a handler: re-raised
     if exc[0] not in ('call', 'new') or exc[1] != 'SystemExit':
-        return exc[0] in ('call', 'new', 'exc', 'name')     # another exception: non-zero exit by traceback
+        return exc[0] in ('call', 'new', 'exc', 'name', 'res', 'callv', 'mcall')
     if not exc[2]:
         return False
-    a = exc[2][0]
+    a = strip(exc[2][0])
     if is_const(a):
         return bool(a[1]) and a[1] is not True
     return True
 
 
+def lines_source(v, path):
+    """How a sequence of label lines is produced: dict(iter=<iterable value>, key=<symbol>, value=<symbol or None>, elt=<template>,
+    filtered=bool) for a comprehension / generator / accumulated list, else None."""
+    v = strip(v)
+    if not isinstance(v, tuple) or not v:
+        return None
+    if v[0] == 'call' and v[1] in ('list', 'tuple', 'iter') and len(v[2]) == 1:
+        return lines_source(v[2][0], path)
+    if v[0] == 'comp':
+        names = v[3].split(',')
+        return {'iter': v[4], 'vars': [('var', n) for n in names], 'elt': v[2], 'filtered': bool(v[5])}
+    if v[0] == 'accum':
+        init, it, elem, meth = strip(v[1]), v[2], v[3], v[4]
+        if not (init[0] == 'list' and not init[1]) or meth != 'append':
+            return None
+        loop = [e for e in path.events if e[0] == 'loop' and e[1] == it]
+        if not loop:
+            return None
+        return {'iter': it, 'vars': loop_vars(loop[-1][2]), 'elt': elem, 'filtered': False}
+    return None
+
+
+def loop_vars(for_node):
+    tag = 'loop@{}'.format(for_node.lineno)
+    tgt = for_node.target
+    elts = tgt.elts if isinstance(tgt, (ast.Tuple, ast.List)) else [tgt]
+    return [('havoc', e.id, tag) if isinstance(e, ast.Name) else None for e in elts]
+
+
+def label_iteration(it, table):
+    """'items' | 'keys' when `it` iterates the label table handed to assemble (any order), 'other' when it is understood to
+    iterate something else, None when not understood."""
+    it = strip(it)
+    if it[0] == 'call' and it[1] in ('sorted', 'list', 'tuple', 'iter', 'reversed') and it[2]:
+        return label_iteration(it[2][0], table)
+    if it == table:
+        return 'keys'
+    if it[0] == 'dictcomp':
+        names = it[3].split(',')
+        inner = strip(it[4])
+        over_items = inner[0] == 'mcall' and inner[2] == 'items' and inner[1] == table
+        if over_items and len(names) == 2 and it[1] == ('var', names[1]):
+            return 'inverted'           # {address: name ...}: one entry per address
+        if over_items and len(names) == 2 and it[1] == ('var', names[0]) and not it[5]:
+            return 'keys'               # a copy of the table
+    if it[0] == 'mcall' and it[2] in ('items', 'keys') and not it[3]:
+        if it[1] == table:
+            return it[2]
+        if strip(it[1])[0] == 'dict' or not contains(it[1], table):
+            return 'other'
+        return None
+    if not contains(it, table):
+        return 'other'
+    return None
+
+
+def judge_line(elt, kvar, vvar, table, newline_added):
+    """(ok, why) for one label line template; ok None = shape not understood."""
+    ps = pieces(elt)
+    if ps is None:
+        return None, 'the text written for a label is built in a way the analysis does not model: {}'.format(show(elt)[:80])
+    if newline_added:
+        ps = ps + [('lit', '\n')]
+    has_key = any(p[0] == 'val' and contains(p[1], kvar) and not (vvar is None and contains(p[1], ('sub', table, kvar))) for p in ps)
+    if vvar is not None:
+        has_val = any(p[0] == 'val' and contains(p[1], vvar) for p in ps)
+    else:
+        has_val = any(p[0] == 'val' and (contains(p[1], ('sub', table, kvar)) or
+                                         any(t for t in [p[1]] if contains(t, ('mcall', table, 'get', (kvar,), ())))) for p in ps)
+    lits = ''.join(p[1] for p in ps if p[0] == 'lit')
+    terminated = bool(ps) and ps[-1][0] == 'lit' and ps[-1][1].endswith('\n')
+    one_line = lits.count('\n') == 1
+    if has_key and has_val and terminated and one_line:
+        return True, ''
+    return False, 'a label line does not contain both the name and the address, or is not exactly one newline-terminated line'
+
+
 def run(repo, tier):
     facts = Facts(repo.asm)
     rep = Report('C17', LEVEL,
-                 'Side-effect ordering on the symbolically enumerated paths of asm.cli_main: events ASM (the assemble call), W (opening a '
-                 'path for writing, bin2hex), FAIL (raise SystemExit / conversion of a user-input error).  No FAIL after any W and ASM before '
-                 'every W on every path (no-clobber); the -o handle is opened in binary mode and receives exactly the value returned by '
-                 'assemble, once; the -l lines come from labels.items() of the very dict passed as labels= to assemble; bin2hex runs after '
-                 'the binary\'s with-block has closed with int(hex_offset, 0); AssemblerError is turned into a failing SystemExit and no '
-                 'handler swallows an exception; option wiring -c / -i / -o / -l.')
-    rep.trusted_base = ['CPython ast', 'bbverif.pathwalk', 'intelhex.bin2hex (third party) writes the same bytes at the given offset']
+                 'Side-effect ordering on the symbolically enumerated paths of asm.cli_main, walked with every helper inlined: events ASM '
+                 '(the assemble call), OPEN (a path opened for writing), HEX (bin2hex), FAIL (raise SystemExit / sys.exit / parser.error) and '
+                 'CONV (an unguarded int() of option text).  No FAIL / CONV after any OPEN and ASM before every OPEN on every path '
+                 '(no-clobber, hex offset validated first); the -o handle is opened in binary write mode and receives exactly the value '
+                 'returned by assemble, once; the -l lines come one per entry from the very dict passed as labels= to assemble and hold '
+                 'name and address; bin2hex runs after the binary has been closed, on the -o path, with int(hex_offset, 0), whenever '
+                 '--hex-offset was given; handlers around the assembly and the option conversions end in a failing exit; option wiring '
+                 '-c / -i / -o / -l resolved through the add_argument table.')
+    rep.trusted_base = ['CPython ast', 'bbverif.pathwalk', 'argparse dest derivation', 'intelhex.bin2hex (third party) writes the same bytes at the given offset']
     rep.not_decided = ['failures of the operating system while writing (disk full, unwritable second file)', 'correctness of intelhex.bin2hex']
-    fn = facts.funcs.get('cli_main')
-    if fn is None:
-        raise AnalysisError('anchor vanished: asm.cli_main')
-    w = Walker(facts, name_results=True)
-    paths = w.run(fn.body, PathState())
-    rep.count('paths through cli_main', len(paths))
+    model = CliModel(facts)
+    fn = model.fn
+    rep.count('paths through cli_main', len(model.paths))
+    undecided = []
     n_w = 0
-    for p in paths:
-        evs = classify(p)
-        asm = [e for e in evs if e[0] == 'ASM']
-        ws = [e for e in evs if e[0] in ('W', 'HEX')]
-        first_w = min([e[1] for e in ws], default=None)
-        for kind, i, node, data in evs:
-            if kind == 'FAIL' and first_w is not None and i > first_w:
-                wnode = [e for e in ws if e[1] < i][0][2]
-                rep.fail(Finding('R17.1.no-clobber', 'cli_main', node,
-                                 'this failing exit is reachable after an output file has already been opened for writing (line {}): a run that fails leaves '
-                                 'existing output files overwritten'.format(wnode.lineno), line=node.lineno), instance='FAIL after W')
-            if kind in ('W', 'HEX'):
-                n_w += 1
-                ok = bool(asm) and asm[0][1] < i
-                rep.check(ok, 'R17.1.asm-first', 'assemble() completes before {} is written'.format(show(data[0]) if kind == 'W' else 'the hex file'),
-                          lambda node=node: Finding('R17.1.asm-first', 'cli_main', node, 'an output file is opened before the program has been assembled: a failing assembly clobbers it', line=node.lineno))
-        if ws and not any(e[0] == 'FAIL' and e[1] > first_w for e in evs):
+    n_ok_paths = 0
+    # which try statements guard the assembly / an option conversion (decided on the events seen inside them on any path)
+    inside = {}
+    try_nodes = {}
+    for pe in model.models:
+        for e in pe.evs:
+            for t in e.tries:
+                inside.setdefault(id(t), set()).add(e.kind)
+                try_nodes[id(t)] = t
+    for pe in model.models:
+        p = pe.p
+        asm = pe.of('ASM')
+        ws = pe.of('OPEN', 'HEX')
+        first_w = min([e.idx for e in ws], default=None)
+        unknown_w = pe.of('WRITE?')
+        # ---- R17.1 no-clobber ------------------------------------------------------------------------------------
+        for e in pe.of('FAIL', 'CONV'):
+            if e.kind == 'CONV' and any(any(catches(ast.unparse(h.type) if h.type is not None else '*', {'ValueError'}) for h in t.handlers) for t in e.tries):
+                continue
+            if first_w is not None and e.idx > first_w:
+                wnode = [w for w in ws if w.idx < e.idx][0].node
+                what = 'this failing exit' if e.kind == 'FAIL' else 'this conversion of option text (it raises on malformed input)'
+                rep.fail(Finding('R17.1.no-clobber', 'cli_main', e.node,
+                                 '{} is reachable after an output file has already been opened for writing (line {}): a run that fails leaves '
+                                 'existing output files overwritten'.format(what, wnode.lineno), line=e.node.lineno), instance='FAIL after W')
+        for e in ws:
+            n_w += 1
+            ok = bool(asm) and asm[0].idx < e.idx
+            rep.check(ok, 'R17.1.asm-first', 'assemble() completes before {} is written'.format(show(e.path)[:60] if e.kind == 'OPEN' else 'the hex file'),
+                      lambda e=e: Finding('R17.1.asm-first', 'cli_main', e.node, 'an output file is opened before the program has been assembled: a failing assembly clobbers it', line=e.node.lineno))
+        if ws and not any(e.idx > first_w for e in pe.of('FAIL')):
             rep.ok('R17.1.no-clobber', 'no failing exit after the first write on any path')
-        # exactness of the binary
-        if asm:
-            binary = None
-            for nm, v in p.env.items():
-                if isinstance(v, tuple) and v and v[0] == 'res' and strip(v) == strip(asm[0][3]):
-                    binary = v
-            outs = [e for e in evs if e[0] == 'W' and e[3][0] == ('attr', p.env.get('args', ('name', 'args')), 'output')]
-            for kind, i, node, (path_sym, mode) in outs:
-                rep.check(mode == 'wb', 'R17.2.binary-mode', '-o file opened in binary write mode',
-                          lambda node=node, mode=mode: Finding('R17.2.binary-mode', 'cli_main', node, 'the output file is opened with mode {!r} instead of \'wb\''.format(mode), line=node.lineno))
-                endw = [e for e in evs if e[0] == 'ENDW' and e[1] > i]
-                upto = endw[0][1] if endw else 10 ** 9
-                writes = [e for e in evs if e[0] == 'WRITE' and i < e[1] < upto and e[3][1] == 'write']
-                good = len(writes) == 1 and binary is not None and writes[0][3][2] == (binary,)
-                rep.check(good, 'R17.2.exact', 'the -o handle receives the value returned by assemble(), once',
-                          lambda node=node, writes=writes: Finding('R17.2.exact', 'cli_main', writes[0][2] if writes else node,
-                                                                   'what is written to the output file is not exactly the assembled program: {}'.format(
-                                                                       [show(x) for x in writes[0][3][2]] if writes else 'nothing'), line=node.lineno))
-            # labels
-            lab_w = [e for e in evs if e[0] == 'W' and e[3][0] == ('attr', p.env.get('args', ('name', 'args')), 'labels')]
-            asm_call = strip(asm[0][3])
-            passed = dict(asm_call[3]).get('labels')
-            for kind, i, node, (path_sym, mode) in lab_w:
-                endw = [e for e in evs if e[0] == 'ENDW' and e[1] > i]
-                upto = endw[0][1] if endw else 10 ** 9
-                writes = [e for e in evs if e[0] == 'WRITE' and i < e[1] < upto]
-                good = False
-                why = 'nothing is written'
-                if writes:
-                    arg = writes[0][3][2][0]
-                    comps = find_all(arg, lambda t: t[0] == 'comp')
-                    if arg[0] == 'comp':
-                        comps = [arg]
-                    why = 'the lines are not produced from the label table handed to assemble()'
-                    for cmp_ in comps:
-                        it = cmp_[4]
-                        if it[0] == 'mcall' and it[2] == 'items' and passed is not None and it[1] == passed and not cmp_[5]:
-                            names = cmp_[3].split(',')
-                            elt = cmp_[2]
-                            uses = all(contains(elt, ('var', n)) for n in names) and len(names) == 2
-                            nl = contains(elt, C('\n')) or any(is_const(t) and isinstance(t[1], str) and '\n' in t[1] for t in find_all(elt, lambda t: t[0] == 'const'))
-                            good = uses and nl
-                            why = 'a label line does not contain both the name and the address, or is not newline terminated'
-                rep.check(good, 'R17.3.labels', '-l file: one line per item of the dict passed as labels= to assemble()',
-                          lambda node=node, why=why: Finding('R17.3.labels', 'cli_main', node, why, line=node.lineno))
-            # hex
-            for kind, i, node, hargs in [e for e in evs if e[0] == 'HEX']:
-                opened = [e for e in evs if e[0] == 'W' and e[1] < i and e[3][0] == ('attr', p.env.get('args', ('name', 'args')), 'output')]
-                closed = [e for e in evs if e[0] == 'ENDW' and opened and opened[0][1] < e[1] < i]
-                rep.check(bool(opened) and bool(closed), 'R17.4.hex-after-close', 'bin2hex runs after the binary file is written and closed',
-                          lambda node=node: Finding('R17.4.hex-after-close', 'cli_main', node, 'the hex file is produced before the binary file has been written and closed', line=node.lineno))
-                a_out = ('attr', p.env.get('args', ('name', 'args')), 'output')
-                off = strip(hargs[2]) if len(hargs) > 2 else None
-                off_ok = off is not None and off[0] == 'call' and off[1] == 'int' and off[2] and off[2][0] == ('attr', p.env.get('args'), 'hex_offset') \
-                    and dict(off[3]).get('base', off[2][1] if len(off[2]) > 1 else None) == C(0)
-                src_ok = len(hargs) >= 2 and hargs[0] == a_out and hargs[1] == ('bin', '+', a_out, C('.hex'))
-                rep.check(off_ok and src_ok, 'R17.4.hex-args', 'bin2hex(output, output + ".hex", int(hex_offset, 0))',
-                          lambda node=node, hargs=hargs: Finding('R17.4.hex-args', 'cli_main', node, 'bin2hex is called with {}'.format([show(h) for h in hargs]), line=node.lineno))
-            # R17.4 the hex file is produced whenever --hex-offset was given (and only then)
-            a_hex = ('attr', p.env.get('args', ('name', 'args')), 'hex_offset')
-            fh = p.facts.get(a_hex)
-            given = fh.get('truthy') if fh else None
-            hexes = [e for e in evs if e[0] == 'HEX']
-            if p.end != 'raise' and given is True:
-                rep.check(bool(hexes), 'R17.4.hex-produced', 'a successful run with --hex-offset writes the hex file',
-                          lambda p=p: Finding('R17.4.hex-produced', 'cli_main', [e for e in evs if e[0] == 'W'][-1][2] if [e for e in evs if e[0] == 'W'] else asm[0][2],
-                                              'there is a successful path on which --hex-offset was given but no Intel HEX file is written (the decision is taken on something other than '
-                                              'the presence of the option, e.g. on the parsed value, so `--hex-offset 0` is skipped)', line=asm[0][2].lineno))
-            if p.end != 'raise' and given is False:
-                rep.check(not hexes, 'R17.4.hex-produced', 'no hex file without --hex-offset',
-                          lambda: Finding('R17.4.hex-produced', 'cli_main', hexes[0][2], 'a hex file is written although --hex-offset was not given', line=hexes[0][2].lineno), nontrivial=False)
-            # argument wiring
-            kws = dict(asm_call[3])
-            a = p.env.get('args', ('name', 'args'))
-            rep.check(kws.get('compress') == ('attr', a, 'compress'), 'R17.5.wiring', '-c reaches assemble(compress=)',
-                      lambda: Finding('R17.5.wiring', 'cli_main', asm[0][2], 'the -c option is not what assemble() receives as compress', line=asm[0][2].lineno), nontrivial=False)
-            rep.check('include_dirs' in kws and kws['include_dirs'][0] != 'const', 'R17.5.wiring', '-i directories reach assemble(include_dirs=)',
-                      lambda: Finding('R17.5.wiring', 'cli_main', asm[0][2], 'include directories are not passed to assemble()', line=asm[0][2].lineno), nontrivial=False)
-    rep.analysed['write events on paths'] = n_w
-    # failure status
-    for t in [n for n in ast.walk(fn) if isinstance(n, ast.Try)]:
-        for h in t.handlers:
-            ends_raise = bool(h.body) and isinstance(h.body[-1], ast.Raise)
-            rep.check(ends_raise, 'R17.5.no-swallow', 'handler `except {}` re-raises as a failing exit'.format(unparse(h.type) if h.type else ''),
-                      lambda h=h: Finding('R17.5.no-swallow', 'cli_main', h, 'an exception handler swallows the error: the run continues and exits 0', line=h.lineno))
-    asm_try = [t for t in ast.walk(fn) if isinstance(t, ast.Try) and any(isinstance(n, ast.Call) and dotted(n.func) == 'assemble' for b in t.body for n in ast.walk(b))]
-    ok = False
-    node = fn
-    for t in asm_try:
-        for h in t.handlers:
-            if h.type is not None and unparse(h.type) in ('AssemblerError', 'Exception') and h.body and isinstance(h.body[-1], ast.Raise):
-                exc = h.body[-1].exc
-                node = h
-                if isinstance(exc, ast.Call) and dotted(exc.func) == 'SystemExit' and exc.args:
-                    a0 = exc.args[0]
-                    ok = not (isinstance(a0, ast.Constant) and (a0.value is None or a0.value == 0 or a0.value == ''))
-    rep.check(ok, 'R17.5.status', 'AssemblerError -> SystemExit(non-zero: the error itself)',
-              lambda: Finding('R17.5.status', 'cli_main', node, 'an assembler error does not end the run with a non-zero exit status and its message', line=getattr(node, 'lineno', fn.lineno)))
-    for p in paths:
+        # ---- R17.5 failing exits -----------------------------------------------------------------------------------
+        for e in pe.of('SWALLOWED'):
+            kinds = inside.get(id(e.node), set())
+            relevant = ('ASM' in kinds and catches(e.handler, {'AssemblerError'})) or ('CONV' in kinds and catches(e.handler, {'ValueError'}))
+            if relevant:
+                h = [h for h in e.node.handlers if (ast.unparse(h.type) if h.type is not None else '*') == e.handler]
+                rep.fail(Finding('R17.5.no-swallow', 'cli_main', h[0] if h else e.node, 'an exception handler swallows the error: the run continues and exits 0',
+                                 line=(h[0] if h else e.node).lineno), instance='except {}'.format(e.handler))
+        for e in pe.of('EXCEPT'):
+            kinds = inside.get(id(e.node), set())
+            if ('ASM' in kinds or 'CONV' in kinds) and not any(s.node is e.node for s in pe.of('SWALLOWED')):
+                rep.ok('R17.5.no-swallow', 'handler `except {}` ends in a failing exit'.format(e.handler))
+                rep.count('failure handlers analysed')
         if p.end == 'raise':
             exc = p.events[-1][1]
-            if exc[0] in ('call', 'new') and exc[1] == 'SystemExit':
-                txt = show(exc)
-                if 'version' in txt:
-                    continue
-                rep.check(exit_arg_ok(exc), 'R17.5.status', 'failing exit {} has a non-zero status'.format(txt[:50]),
-                          lambda p=p, txt=txt: Finding('R17.5.status', 'cli_main', p.events[-1][2], 'this exit reports success (status 0 / no message): {}'.format(txt[:60]), line=p.events[-1][2].lineno), nontrivial=False)
+            txt = show(exc)
+            rep.check(exit_arg_ok(exc), 'R17.5.status', 'failing exit {} has a non-zero status'.format(txt[:50]),
+                      lambda p=p, txt=txt: Finding('R17.5.status', 'cli_main', p.events[-1][2], 'this exit reports success (status 0 / no message): {}'.format(txt[:60]),
+                                                   line=p.events[-1][2].lineno), nontrivial=False)
+            continue
+        # ---- successful paths --------------------------------------------------------------------------------------
+        if pe.args is None or not asm:
+            undecided.append('a path through cli_main ends normally without {}'.format('parsed arguments' if pe.args is None else 'an assemble() call'))
+            continue
+        n_ok_paths += 1
+        if len(asm) > 1:
+            undecided.append('assemble() is called more than once on a path')
+            continue
+        a = asm[0]
+        binary = a.value
+        o_out, o_lab, o_hex = model.option(pe, 'output'), model.option(pe, 'labels'), model.option(pe, 'hex')
+        o_cmp, o_inc = model.option(pe, 'compress'), model.option(pe, 'include')
+        opens = pe.of('OPEN')
+        for e in opens:
+            if e.path not in (o_out, o_lab):
+                undecided.append('a file other than the -o / -l paths is opened for writing: {}'.format(show(e.path)[:60]))
+        if unknown_w:
+            undecided.append('a write through something that is not a handle of a recognised open(): {}'.format(show(unknown_w[0].recv)[:60]))
+        # exactness of the binary
+        outs = [e for e in opens if e.path == o_out]
+        if not outs:
+            undecided.append('no recognised open() of the -o path on a successful path')
+        for e in outs:
+            mode = e.mode
+            if mode is None:
+                undecided.append('mode of the -o open() is not a literal')
+            else:
+                rep.check('w' in mode and 'b' in mode and 'a' not in mode and 'x' not in mode, 'R17.2.binary-mode', '-o file opened in binary write mode',
+                          lambda e=e, mode=mode: Finding('R17.2.binary-mode', 'cli_main', e.node, 'the output file is opened with mode {!r} instead of \'wb\''.format(mode), line=e.node.lineno))
+            wr = [w for w in pe.of('WRITE') if w.open is e]
+            end = e.closed if e.closed is not None else len(p.events)
+            if any(w.loops and [l for l in w.loops if l[0] > e.idx] for w in wr) or (not wr and any(x[0] == 'loop0' for x in p.events[e.idx:end])):
+                undecided.append('the -o file is written inside a loop (chunked writing is not modelled)')
+                continue
+            verdicts = [same_bytes(w.args[0], binary) if (w.method == 'write' and len(w.args) == 1) else None for w in wr]
+            if len(wr) == 1 and verdicts[0] is True:
+                rep.ok('R17.2.exact', 'the -o handle receives the value returned by assemble(), once')
+            elif len(wr) == 1 and verdicts[0] is None:
+                undecided.append('what is written to the -o file is not understood: {}'.format(show(wr[0].args[0])[:80] if wr[0].args else wr[0].method))
+            else:
+                rep.fail(Finding('R17.2.exact', 'cli_main', wr[0].node if wr else e.node,
+                                 'what is written to the output file is not exactly the assembled program, once: {}'.format(
+                                     [show(x)[:60] for w in wr for x in w.args] if wr else 'nothing'), line=e.node.lineno),
+                         instance='the -o handle receives the value returned by assemble(), once')
+        # labels
+        table = a.kw.get('labels')
+        labs = [e for e in opens if e.path == o_lab]
+        if given(p, o_lab) is True and not labs:
+            undecided.append('-l was given but no recognised open() of its path follows')
+        for e in labs:
+            if table is None:
+                undecided.append('assemble() does not receive a labels= table')
+                continue
+            if e.mode is None or 'b' in e.mode:
+                undecided.append('mode of the -l open() is not a literal text mode')
+            else:
+                rep.check('w' in e.mode and 'a' not in e.mode, 'R17.3.mode', '-l file opened for (over)writing text',
+                          lambda e=e: Finding('R17.3.mode', 'cli_main', e.node, 'the labels file is opened with mode {!r}: older lines survive'.format(e.mode), line=e.node.lineno), nontrivial=False)
+            wr = [w for w in pe.of('WRITE') if w.open is e]
+            verdict, why = judge_labels(wr, e, table, p)
+            if verdict is None:
+                undecided.append(why)
+            else:
+                rep.check(verdict, 'R17.3.labels', '-l file: one line per item of the dict passed as labels= to assemble()',
+                          lambda e=e, why=why: Finding('R17.3.labels', 'cli_main', e.node, why, line=e.node.lineno))
+        # hex
+        hexes = pe.of('HEX')
+        for h in hexes:
+            hargs = list(h.pos)
+            opened = [e for e in outs if e.idx < h.idx]
+            closed = [e for e in opened if e.closed is not None and e.closed < h.idx]
+            rep.check(bool(opened) and len(closed) == len(opened), 'R17.4.hex-after-close', 'bin2hex runs after the binary file is written and closed',
+                      lambda h=h: Finding('R17.4.hex-after-close', 'cli_main', h.node, 'the hex file is produced before the binary file has been written and closed', line=h.node.lineno))
+            fin = hargs[0] if hargs else h.kw.get('fin')
+            fout = hargs[1] if len(hargs) > 1 else h.kw.get('fout')
+            off = hargs[2] if len(hargs) > 2 else h.kw.get('offset')
+            verdict, why = judge_hex_args(fin, fout, off, o_out, o_hex, pe.args)
+            if verdict is None:
+                undecided.append(why)
+            else:
+                rep.check(verdict, 'R17.4.hex-args', 'bin2hex(output, output + ".hex", int(hex_offset, 0))',
+                          lambda h=h, why=why: Finding('R17.4.hex-args', 'cli_main', h.node, why, line=h.node.lineno))
+        g = given(p, o_hex)
+        if g is True and not hexes:
+            if any('intelhex' in e.text for e in pe.of('IMPORT')):
+                undecided.append('--hex-offset given and intelhex imported, but no bin2hex(...) call is recognised')
+            else:
+                last = opens[-1].node if opens else a.node
+                rep.fail(Finding('R17.4.hex-produced', 'cli_main', last,
+                                 'there is a successful path on which --hex-offset was given but no Intel HEX file is written (the decision is taken on something other than '
+                                 'the presence of the option, e.g. on the parsed value, so `--hex-offset 0` is skipped)', line=a.node.lineno),
+                         instance='a successful run with --hex-offset writes the hex file')
+        elif g is True:
+            rep.ok('R17.4.hex-produced', 'a successful run with --hex-offset writes the hex file')
+        elif g is False:
+            rep.check(not hexes, 'R17.4.hex-produced', 'no hex file without --hex-offset',
+                      lambda: Finding('R17.4.hex-produced', 'cli_main', hexes[0].node, 'a hex file is written although --hex-offset was not given', line=hexes[0].node.lineno), nontrivial=False)
+        elif hexes:
+            undecided.append('a hex file is written on a path where the presence of --hex-offset is not decided')
+        # argument wiring
+        rep.check(a.kw.get('compress') == o_cmp, 'R17.5.wiring', '-c reaches assemble(compress=)',
+                  lambda: Finding('R17.5.wiring', 'cli_main', a.node, 'the -c option is not what assemble() receives as compress', line=a.node.lineno), nontrivial=False)
+        inc = a.kw.get('include_dirs')
+        loop_ran = any(e[0] == 'loop' and contains(e[1], o_inc) for e in p.events)
+        inc_ok = inc is not None and not is_const(strip(inc)) and (not loop_ran or contains(inc, o_inc))
+        rep.check(inc_ok, 'R17.5.wiring', '-i directories reach assemble(include_dirs=)',
+                  lambda: Finding('R17.5.wiring', 'cli_main', a.node, 'include directories are not passed to assemble()', line=a.node.lineno), nontrivial=False)
+    rep.analysed['write events on paths'] = n_w
+    rep.analysed['successful paths analysed'] = n_ok_paths
+    if undecided and not rep.findings:
+        raise AnalysisError('cli_main: ' + undecided[0] + (' (+{} more)'.format(len(set(undecided)) - 1) if len(set(undecided)) > 1 else ''))
     rep.floor('paths through cli_main', 8)
+    rep.floor('successful paths analysed', 4)
     rep.floor('write events on paths', 4)
     return rep
+
+
+def judge_labels(wr, op, table, path):
+    """(True / False / None, why) for the writes on the -l handle."""
+    end = op.closed if op.closed is not None else len(path.events)
+    empty_before = [e for e in path.events[:end] if e[0] == 'loop0' and label_iteration(e[1], table) in ('items', 'keys')]
+    if not wr:
+        if any(e in path.events[op.idx:end] for e in empty_before):
+            return True, ''            # the loop over the label table ran zero times: an empty table gives an empty file
+        return False, 'nothing is written to the labels file'
+    if len(wr) != 1:
+        return None, 'the labels file is written by several statements (not modelled)'
+    w = wr[0]
+    inner_loops = [l for l in w.loops if l[0] > op.idx]
+    newline_added = False
+    if w.method == 'print':
+        end = w.kw.get('end')
+        if end is not None or len(w.args) != 1 or 'sep' in w.kw:
+            return None, 'print(..., file=<labels file>) with end= / sep= / several values is not modelled'
+        newline_added = True
+    if inner_loops:
+        if len(inner_loops) != 1 or w.method == 'writelines':
+            return None, 'label lines written from nested loops (not modelled)'
+        idx, for_node, it = inner_loops[0]
+        src = {'iter': it, 'vars': loop_vars(for_node), 'elt': w.args[0] if w.args else None, 'filtered': False}
+        # a conditional write inside the loop drops labels
+        conds = [e for e in path.events[idx:w.idx] if e[0] == 'cond']
+        if conds:
+            return None, 'label lines are written under a condition inside the loop (not modelled)'
+    elif w.method == 'writelines' and len(w.args) == 1:
+        src = lines_source(w.args[0], path)
+    elif w.method in ('write', 'print') and len(w.args) == 1:
+        s = strip(w.args[0])
+        if s[0] == 'mcall' and s[2] == 'join' and is_const(strip(s[1])) and strip(s[1])[1] in ('', '\n') and len(s[3]) == 1:
+            src = lines_source(s[3][0], path)
+            if strip(s[1])[1] == '\n':
+                return None, 'label lines joined with a newline separator (termination of the last line not modelled)'
+        else:
+            src = None
+    else:
+        src = None
+    if src is None and w.args and strip(w.args[0]) in (('list', ()), C('')) and empty_before:
+        return True, ''                # lines accumulated by a loop over the label table that ran zero times
+    if src is None or src['elt'] is None:
+        return None, 'how the label lines are produced is not understood: {}'.format(show(w.args[0])[:80] if w.args else w.method)
+    kind = label_iteration(src['iter'], table)
+    if kind == 'other':
+        return False, 'the lines are not produced from the label table handed to assemble()'
+    if kind == 'inverted':
+        return False, 'the lines are produced from a table keyed by address: labels that share an address collapse into a single line'
+    if kind is None:
+        return None, 'the iteration that produces the label lines is not understood: {}'.format(show(src['iter'])[:80])
+    if src['filtered']:
+        return None, 'label lines are filtered (not modelled)'
+    vs = src['vars']
+    if kind == 'items':
+        if len(vs) != 2 or None in vs:
+            return None, 'label items are not unpacked into (name, address)'
+        kvar, vvar = vs
+    else:
+        if len(vs) != 1 or None in vs:
+            return None, 'label names are not iterated by a single variable'
+        kvar, vvar = vs[0], None
+    return judge_line(src['elt'], kvar, vvar, table, newline_added)
+
+
+def judge_hex_args(fin, fout, off, o_out, o_hex, args_value):
+    if fin is None or fout is None or off is None:
+        return None, 'bin2hex is not called with (input, output, offset)'
+
+    def understood_path(v):
+        ps = pieces(v)
+        return ps is not None and all(p[0] == 'lit' or (p[1][0] == 'attr' and p[1][1] == args_value) for p in ps)
+    want_out = [('val', o_out), ('lit', '.hex')]
+    if fin != o_out:
+        if understood_path(fin):
+            return False, 'bin2hex reads {} instead of the -o file'.format(show(fin)[:60])
+        return None, 'the input path of bin2hex is not understood: {}'.format(show(fin)[:60])
+    if pieces(fout) != want_out:
+        if understood_path(fout):
+            return False, 'bin2hex writes {} instead of <output>.hex'.format(show(fout)[:60])
+        return None, 'the output path of bin2hex is not understood: {}'.format(show(fout)[:60])
+    o = strip(off)
+    if o[0] == 'call' and o[1] == 'int' and o[2] and o[2][0] == o_hex:
+        base = dict(o[3]).get('base', o[2][1] if len(o[2]) > 1 else None)
+        if base == C(0):
+            return True, ''
+        return False, 'the hex offset is parsed with base {} instead of base 0 (0x.. / 0b.. / decimal spellings)'.format(show(base) if base else 'ten')
+    if is_const(o) or (o[0] == 'attr' and o[1] == args_value):
+        return False, 'bin2hex is called with the offset {} instead of int(<--hex-offset>, 0)'.format(show(o)[:60])
+    return None, 'the offset handed to bin2hex is not understood: {}'.format(show(o)[:60])
